@@ -19,6 +19,11 @@ GEN_DEPTH = {
 
 MODULE_OF = {"MC_auth": "MC_auth.tla", "MC_noauth": "MC_auth.tla", "GEN_auth": "MC_auth.tla", "GEN_noauth": "MC_auth.tla",
              "MC_nonce": "Nonce.tla", "GEN_nonce": "Nonce.tla"}
+for _n in ("tcp", "tcpA", "tcpB"):
+    MODULE_OF["MC_" + _n] = MODULE_OF["GEN_" + _n] = "TurnTCP.tla"
+MC_DEPTH["MC_tcp"] = (6, 7)
+GEN_DEPTH["GEN_tcpA"] = (6, 7)
+GEN_DEPTH["GEN_tcpB"] = (5, 6)
 for _n in ("framer", "bindreply", "codec"):
     MODULE_OF["MC_" + _n] = MODULE_OF["GEN_" + _n] = "Codec.tla" if _n == "codec" else "Framer.tla"
     MC_DEPTH["MC_" + _n] = None
@@ -84,12 +89,12 @@ PROPS = {
                 run=core_run(["MC_relay", "MC_relayB", "MC_v6"], ["GEN_relayA", "GEN_relayB", "GEN_relayD", "GEN_v6"]),
                 assumptions=BASE_ASSUME),
     "C03": dict(title="state changes only with valid long-term credentials", level="model_checking",
-                run=core_run(["MC_auth", "MC_noauth", "MC_nonce"], ["GEN_auth", "GEN_noauth", "GEN_nonce", "GEN_users"]),
+                run=core_run(["MC_auth", "MC_noauth", "MC_nonce"], ["GEN_auth", "GEN_noauth", "GEN_nonce", "GEN_users", "GEN_tcpB"]),
                 assumptions=BASE_ASSUME + ["HMAC-SHA1/MD5/SHA256 are treated as uninterpreted injective functions: what is decided is which key and "
                                            "bytes are compared and when, for the credential-defect classes of TurnAuth.tla and the mutation classes of Nonce.tla",
                                            "nonce ages 3601..3659 s are a grey band (implementation granularity) that is never probed"]),
     "C04": dict(title="allocations are isolated by 5-tuple", level="model_checking",
-                run=core_run(["MC_iso", "MC_relay"], ["GEN_iso", "GEN_relayD", "GEN_v6"]),
+                run=core_run(["MC_iso", "MC_relay"], ["GEN_iso", "GEN_relayD", "GEN_v6", "GEN_tcpB"]),
                 assumptions=BASE_ASSUME),
     "C05": dict(title="payloads intact, exactly once, truthful attribution", level="model_checking",
                 run=core_run(["MC_mtu"], ["GEN_mtu", "GEN_mtu1200", "GEN_relayA"]),
@@ -117,6 +122,11 @@ PROPS = {
                              "all 65536 channel numbers are swept against the spec's ValidChan set; payload lengths are the classes 0..8, 1499, 1500, 65532, 65533, 65535; "
                              "raw attribute values of every size 0..64 in six fill classes for each of the eleven attributes",
                              "XOR address arithmetic itself lives in pion/stun and is only exercised, not specified"]),
+    "C16": dict(title="TCP relay: bind once, by the owner, within 30 s, bytes intact", level="model_checking",
+                run=core_run(["MC_tcp"], ["GEN_tcpA", "GEN_tcpB"]),
+                assumptions=["control, relayed, peer and data connections are in-memory buffered streams (harness/memstream.go); connection ids are aliased by order of appearance",
+                             "bind timeout is the compiled-in 30 s; chunks of 5-64 seeded bytes are written with the system quiescent between them, so arbitrary coalescing is not explored here (C10 covers segmentation of the framing layer)",
+                             "after every step the manager and allocation locks are probed (TryLock) and the tcpConnections table is compared with the spec"]),
     "C17": dict(title="time-windowed credentials validate iff authentic and unexpired", level="model_checking",
                 run=core_run(["MC_ltcred"], ["GEN_ltcred"]),
                 assumptions=["HMAC-SHA1 / MD5 treated as uninterpreted injective functions (LtCred.tla)",
